@@ -100,12 +100,32 @@ class ModeRules:
             if not term_iv:
                 st.sym['iv%d' % i] = (0, 255)
         frec = prog.records[self.Fq]
-        for f in frec['fields']:
-            if f['n'] == 'key':
-                st.mem[(FAC, (f['d'][2:],))] = P(KEY, (0,))
-            elif f['n'] == 'iv':
-                st.mem[(FAC, (f['d'][2:],))] = P(IVSRC, (0,))
-        res = I.run(self.factory, st, this=P(FAC, ()), args=[C(1 if enc else 0), C(typ)])
+        ivfld = next((f for f in frec['fields'] if f['n'] == 'iv'), None)
+        iv_is_ptr = ivfld is None or (prog.type(ivfld['t']) or {}).get('k') == 'ptr'
+        if iv_is_ptr:
+            for f in frec['fields']:
+                if f['n'] == 'key':
+                    st.mem[(FAC, (f['d'][2:],))] = P(KEY, (0,))
+                elif f['n'] == 'iv':
+                    st.mem[(FAC, (f['d'][2:],))] = P(IVSRC, (0,))
+            res = I.run(self.factory, st, this=P(FAC, ()), args=[C(1 if enc else 0), C(typ)])
+            return I, res
+        # the factory keeps its own copy of the IV: build it the way the product code does - the constructor that takes the key,
+        # then the member function that takes the IV
+        T = prog.type
+        ctor = [g for g in prog.functions.values() if g.get('ctor') and g.get('rec') == self.Fq and len(g['params']) == 1 and (T(g['params'][0]['t']) or {}).get('k') == 'ptr']
+        setiv = [prog.functions[m['id']] for m in frec['methods'] if m['id'] in prog.functions and not prog.functions[m['id']].get('ctor')
+                 and len(prog.functions[m['id']]['params']) == 1 and (T(prog.functions[m['id']]['params'][0]['t']) or {}).get('k') == 'ptr'
+                 and (T(prog.functions[m['id']]['ret']) or {}).get('k') == 'void']
+        if len(ctor) != 1 or len(setiv) != 1:
+            return I, []
+        cur = [s_ for s_, _ in I.run(ctor[0], st, this=P(FAC, ()), args=[P(KEY, (0,))])]
+        nxt = []
+        for s_ in cur:
+            nxt += [s2 for s2, _ in I.run(setiv[0], s_, this=P(FAC, ()), args=[P(IVSRC, (0,))])]
+        res = []
+        for s_ in nxt:
+            res += I.run(self.factory, s_, this=P(FAC, ()), args=[C(1 if enc else 0), C(typ)])
         return I, res
 
     def history(self):
